@@ -136,7 +136,7 @@ func nycttripsDriver(args []string) (*Summary, error) {
 				}
 			}
 			rec := nyctRecord{"msg", id, c.Msg, *c.Opts, with.Err, with.Res, without.Err, without.Res, nil}
-			if len(msg.Ents) >= 2 && len(msg.Ents) <= 3 {
+			if len(msg.Ents) >= 2 && len(msg.Ents) <= 3 && len(msg.Fuse) == 0 {
 				for _, o := range rt.Permutations(len(msg.Ents))[1:] {
 					e2 := nycttrips.Extension(nycttrips.ExtensionOpts{FilterStaleUnassignedTrips: c.Opts.FilterStale, PreserveMTrainPlatformsInBushwick: c.Opts.PreserveM})
 					rec.Perms = append(rec.Perms, rt.ParseOnce(msg, o, "nil", e2))
